@@ -166,6 +166,8 @@ class FilesystemRegistry(AbstractRegistry):
         )
 
     def __getitem__(self, item):
+        if not self._recurse and "/" in "{}".format(item):
+            raise KeyError(item)  # keys are stems of files located in the root
         files = ("{}.{}".format(item, extension) for extension in self._extensions)
         for name in files:
             if self.fs.isfile(name):
